@@ -27,11 +27,11 @@ func main() { vrt.Main("C26", run) }
 var forks = []refevm.Fork{refevm.Cancun, refevm.Prague, refevm.Osaka}
 
 type covAgg struct {
-	mu    sync.Mutex
-	ops   [3][256]uint64
-	pre   [3]map[refevm.Address]uint64
-	halts map[string]uint64
-	frames uint64
+	mu       sync.Mutex
+	ops      [3][256]uint64
+	pre      [3]map[refevm.Address]uint64
+	halts    map[string]uint64
+	frames   uint64
 	maxDepth int
 }
 
@@ -71,7 +71,7 @@ func bucket(n int) string {
 }
 
 func run(r *vrt.Run) {
-	r.Rule("per fork (Cancun, Prague, Osaka): pre-state of 2-4 funded EOAs (optionally delegated), 1-5 contracts with proggen programs (structured/raw/mutated) or targeted probe programs (precompile inputs, SSTORE sequences, access-cost probes, create collisions, self-destruct factory), system contracts; env with given or parent-derived base fee / excess blob gas, 0-4 withdrawals, full BLOCKHASH window; 1-6 transactions of types 0-4 incl. deliberately invalid ones, gas-boundary limits, access lists, blobs, authorisation lists, request-contract and deposit transactions. Non-trivial signature = (fork, tx types present, rejected present, status mix, distinct-opcode bucket, max depth bucket, frame bucket, halting reasons seen, requests present, generator tags)")
+	r.Rule("per fork (Cancun, Prague, Osaka): pre-state of 3-5 funded EOAs (optionally delegated or carrying plain code), 1-5 contracts with proggen programs (structured/raw/mutated, 75%) or this package's targeted probe programs (precompile calls with crafted valid/invalid inputs and exact/short gas, SSTORE/TSTORE sequences with measured gas, cold/warm access probes incl. EIP-7702 delegated accounts, CREATE/CREATE2 collisions, init-code size limit, self-destruct factory, unbounded self-recursion to depth 1024, PUSH/DUP/SWAP and arithmetic sweeps), system contracts (real EIP-4788/2935/7002/7251 code, deposit stub, occasionally absent/failing request contracts); env with given or parent-derived base fee / excess blob gas, 0-4 withdrawals, full BLOCKHASH window; 1-12 transactions of types 0-4 (model-steered nonces) incl. deliberately invalid ones, gas limits at intrinsic/floor boundaries, EIP-7623 floor-vs-refund probes, access lists, blobs, authorisation lists (valid, wrong chain/nonce/parity, high-s, duplicates), request-contract and deposit transactions (well-formed and malformed logs). Non-trivial signature = (fork, tx types present, rejected present, status mix, distinct-opcode bucket, max depth bucket, frame bucket, halting reasons seen, requests present, generator tags)")
 	bin := evmBinary()
 	if _, err := os.Stat(bin); err != nil {
 		r.Inconclusive("evm binary not found at %s (declare the build_only variant or set C26_EVM)", bin)
@@ -86,8 +86,9 @@ func run(r *vrt.Run) {
 	// contract creation onto a storage-only account: EIP-7610 says collision, go-ethereum
 	// checks a hard-coded list of mainnet addresses instead. Known divergence, same policy.
 	ft.StorageOnlyCollision = os.Getenv("C26_STORAGE_ONLY_COLLISION") != "0"
-	// counts, not time budgets: one case costs ~0.05 CPU-s in the model and ~0.15 CPU-s in the tool
-	perFork := r.N(1000, 40000)
+	// counts, not time budgets: one case costs ~0.05 CPU-s in the model and 0.4-1 CPU-s in the
+	// tool on this machine (dominated by the start-up of the 58 MB evm binary)
+	perFork := r.N(400, 15000)
 	if v := os.Getenv("C26_N"); v != "" {
 		fmt.Sscan(v, &perFork)
 	}
